@@ -880,10 +880,17 @@ async fn converse<D: Drv>(sh: Sh, mut d: D, mut peer: ChannelBuffer, known: std:
         if dont_care(p, s, k) {
             continue;
         }
-        let want = spec.next(s, k);
+        let mut want = spec.next(s, k);
         let mut m = { let mut g = sh.lock().unwrap(); gen1(p, k, &mut g.ch) };
         if let M1::Ka(mp::keepalive::Message::ResponseKeepAlive(c)) = &mut m {
             *c = last_cookie;
+            // one response in four echoes a wrong cookie: the specification's side condition fails, so the
+            // message is one of "everything else" - an error and no state change
+            if !we && want.is_some() && chance(&sh, "conv.wrong_cookie", 1, 4) {
+                *c = last_cookie.wrapping_add(1 + draw(&sh, "conv.wrong_cookie.delta", 3) as u16);
+                want = None;
+                inc(&sh, "fault.keepalive_wrong_cookie");
+            }
         }
         let rendered = m.render();
         if we {
@@ -1074,7 +1081,7 @@ pub fn def() -> CheckDef {
             "agents whose send_message/recv_message are private (chainsync server recv, local-tx-submission) are judged through their high-level methods only",
             "tx-monitor MsgAwaitAcquire/MsgAcquire in Acquired are don't-care (shared wire encoding)",
         ],
-        required: vec!["probe.raw_send_verdicts", "probe.raw_recv_verdicts", "probe.high_level_moves", "fault.illegal_local_move_rejected", "fault.byzantine_peer_message_rejected"],
+        required: vec!["probe.raw_send_verdicts", "probe.raw_recv_verdicts", "probe.high_level_moves", "fault.illegal_local_move_rejected", "fault.byzantine_peer_message_rejected", "fault.keepalive_wrong_cookie"],
         env_nondeterminism: "pipe scheduling (stalls, short reads, capacities) between the two real multiplexers; conversation path incl. Byzantine moves",
     }
 }
